@@ -25,7 +25,10 @@ pub enum Exec {
 impl Exec {
   pub fn run(&mut self) {
     match self {
-      Exec::Pool(p) => p.run_until_stalled(),
+      Exec::Pool(p) => {
+        p.run_until_stalled();
+        e::reraise_if_aborting();
+      }
       Exec::Any => world::run_any_until_stalled(48),
       Exec::AnyFifo => world::run_fifo_until_stalled(48),
     }
@@ -137,6 +140,8 @@ pub(crate) fn c07_run(threads_form: bool, max_items: u32, do_cut: bool) {
   };
   let script = draw_script(max_items, true);
   let cold = matches!(op, MoveOp::DelaySubscription(_) | MoveOp::SubscribeOn) && e::choose_bool();
+  // hot input: a parked `create` subscriber handle or a Subject (which consults is_finished / is_closed of its subscribers)
+  let hot_kind = if cold { 0 } else { e::choose(2) };
   // FIFO first, ANY second in both forms (the differential harness replays the same choices)
   let kind = if threads_form { 2 - e::choose(2) } else { e::choose(2) };
   let probe = fresh_probe();
@@ -169,19 +174,19 @@ pub(crate) fn c07_run(threads_form: bool, max_items: u32, do_cut: bool) {
   }
   if threads_form {
     with_exec_send!(kind, |sd, exec| {
-      let src: ObsT = if cold { cat::cold_t(script.items.clone(), script.term.clone(), 0) } else { cat::hot_t() };
+      let src: ObsT = if cold { cat::cold_t(script.items.clone(), script.term.clone(), 0) } else { cat::hot_kind_t(0, hot_kind) };
       build!(src, sd, delay_threads, observe_on_threads, BoxSubscriptionThreads);
       exec_box = exec;
     });
   } else {
     with_exec!(kind, |sd, exec| {
-      let src: Obs = if cold { cat::cold(script.items.clone(), script.term.clone(), 0) } else { cat::hot() };
+      let src: Obs = if cold { cat::cold(script.items.clone(), script.term.clone(), 0) } else { cat::hot_kind(0, hot_kind) };
       build!(src, sd, delay, observe_on, BoxSubscription);
       exec_box = exec;
     });
   }
   let exec = &mut exec_box;
-  e::note(format!("{:?}{} on {} ; {} source ; input [{}]", op, if threads_form { "_threads" } else { "" }, exec.name(), if cold { "cold" } else { "hot" }, script.show()));
+  e::note(format!("{:?}{} on {} ; {} source ; input [{}]", op, if threads_form { "_threads" } else { "" }, exec.name(), if cold { "cold" } else if hot_kind == 0 { "hot(create handle)" } else { "hot(Subject)" }, script.show()));
   // cut-point machinery
   let mut points: i64 = 0;
   let mut cut_done = false;
@@ -219,7 +224,7 @@ pub(crate) fn c07_run(threads_form: bool, max_items: u32, do_cut: bool) {
         exec.run();
         cut_point(exec);
       }
-      let h = if threads_form { cat::handle_t_nth(0, 0).map(|mut h| feed_t(&mut h, ev)).is_some() } else { cat::handle_nth(0, 0).map(|mut h| feed(&mut h, ev)).is_some() };
+      let h = if threads_form { cat::feed_hot_t(0, ev) } else { cat::feed_hot(0, ev) };
       if h {
         if sub_time.is_none() {
           sub_time = Some(world::now());
@@ -364,7 +369,7 @@ pub fn harnesses() -> Vec<HarnessDef> {
   }
   add("c07_move", vec!["C07"], "scheduler-moving operators (local forms): delivered sequence, prefix-on-error, never earlier than the delay", b7, Box::new(|t| c07_run(false, if t { 3 } else { 2 }, false)), 2_000_000, 40_000_000, true);
   add("c07_move_threads", vec!["C07"], "scheduler-moving operators (_threads forms)", b7, Box::new(|t| c07_run(true, if t { 3 } else { 2 }, false)), 2_000_000, 40_000_000, true);
-  add("c07_at_forms", vec!["C07"], "delay_at, delay_at_threads, delay_subscription_at, timer_at, interval_at: requested delay = time remaining until the instant (real clock, instants now-5s / now / now+10s / now+1000s, tolerance 2 s)", |_| "6 operators x 4 instants".to_string(), Box::new(|_| c07_at_forms()), 10_000, 10_000, false);
+  add("c07_at_forms", vec!["C07", "C08"], "delay_at, delay_at_threads, delay_subscription_at, timer_at, interval_at: requested delay = time remaining until the instant (real clock, instants now-5s / now / now+10s / now+1000s, tolerance 2 s)", |_| "6 operators x 4 instants".to_string(), Box::new(|_| c07_at_forms()), 10_000, 10_000, false);
   add("c02_sched", vec!["C02"], "scheduler operators: unsubscribe()/guard drop at every point of the script and of the virtual-time line, then every executor order drained and the clock advanced past every deadline", b7, Box::new(|t| c07_run(false, if t { 3 } else { 2 }, true)), 2_000_000, 40_000_000, true);
   add("c02_sched_threads", vec!["C02"], "same for the _threads forms", b7, Box::new(|t| c07_run(true, if t { 3 } else { 2 }, true)), 2_000_000, 40_000_000, true);
   v
